@@ -36,6 +36,11 @@ def explore_and_judge(ck, b, tag):
     open(cfgp, "w").write(cfg_text(b))
     catp = os.path.join(w, "catalogue_%s.json" % tag)
     cat = vlib.tlc_emit_json("EmitDbCatalogue", cfgp, catp)
+    if b.get("ops"):
+        # focused exploration: a sub-catalogue (still emitted by TLC) explored to a greater depth
+        cat = [c for c in cat if c["op"] in b["ops"] and c.get("t", "none") in (b.get("roles_kept") or ["none"] + b["types"])
+               and c.get("nadd", 1) == 1]
+        json.dump(cat, open(catp, "w"))
     bounds = dict(b)
     bounds["seed"] = vlib.seed()
     bp = os.path.join(w, "bounds_%s.json" % tag)
@@ -209,6 +214,12 @@ def run(tier):
         b = dict(types=["x", "z", "sel"], maxcols=3, maxuid=5, maxnech=2, max_transitions=60000, walks=2500,
                  walk_depth=30, init_nech=[1, 2], grids=[0, 1])
         ncat = explore_and_judge(ck, b, "main")
+        # names and column positions: every add / delete / rename sequence (no roles), exhaustively
+        bn = dict(types=["x"], roles_kept=["none"], maxcols=3, maxuid=5, maxnech=1, max_transitions=150000, walks=0, walk_depth=0,
+                  init_nech=[1], grids=[0],
+                  ops=["addColumnsByConstant", "deleteColumnByUID", "deleteColumnByColIdx", "deleteColumn", "setName",
+                       "setNameByUID", "setNameByColIdx", "copy"])
+        ncat += explore_and_judge(ck, bn, "names")
     else:
         b = dict(types=["x", "z", "sel"], maxcols=3, maxuid=6, maxnech=2, max_transitions=600000, walks=20000,
                  walk_depth=40, init_nech=[1, 2], grids=[0, 1])
@@ -216,6 +227,11 @@ def run(tier):
         b2 = dict(types=["x", "z", "f", "v"], maxcols=4, maxuid=7, maxnech=1, max_transitions=300000, walks=20000,
                   walk_depth=40, init_nech=[1], grids=[0])
         ncat += explore_and_judge(ck, b2, "wide")
+        bn = dict(types=["x"], roles_kept=["none"], maxcols=4, maxuid=7, maxnech=1, max_transitions=1500000, walks=0, walk_depth=0,
+                  init_nech=[1], grids=[0, 1],
+                  ops=["addColumnsByConstant", "deleteColumnByUID", "deleteColumnByColIdx", "deleteColumn", "setName",
+                       "setNameByUID", "setNameByColIdx", "copy", "deleteColumnsByColIdx", "deleteColumnsByUIDRange"])
+        ncat += explore_and_judge(ck, bn, "names")
     validate_recorded_traces(ck, tier)
     ck.cov["catalogue_entries"] = ncat
     ck.cov["rule"] = ("every catalogue entry (operation + arguments, emitted by TLC from DbTable.tla) applied to a clone of "
